@@ -12,6 +12,7 @@ B = 'src/builder.rs'
 MUTANTS = [
     ('types::SourceMap::rewrite_with_mapping', r'builder\.strip_prefixes\(&prefixes\);', ''),
     ('types::SourceMap::rewrite_with_mapping', r'prefixes\.push\(prefix\.to_string\(\)\);', 'if prefixes.is_empty() { prefixes.push(prefix.to_string()); }'),
+    ('types::SourceMap::rewrite_with_mapping', r'if need_common_prefix \{', 'if !need_common_prefix {'),
     ('types::SourceMap::rewrite_with_mapping', r'self\.get_source_contents\(token\.get_src_id\(\)\)', 'self.get_source_contents(raw.src_id)'),
     ('types::SourceMap::rewrite_with_mapping', r'builder\.add_token\(&token, options\.with_names\)', 'builder.add_token(&token, true)'),
 ]
